@@ -189,6 +189,9 @@ type pathCtx struct {
 	incTags                                              []string
 	curLabel                                             string
 	mapOrder                                             int
+	bsets                                                map[string]*byteSet
+	inexact                                              map[string]bool
+	filterHits                                           int64
 	obs                                                  []obsRec
 	panicWhere                                           string
 	panicStack                                           []string
@@ -242,9 +245,131 @@ func (px *pathCtx) assertPC(t *Term) {
 		return
 	}
 	px.pc = append(px.pc, t)
+	px.refine(t)
 	if err := px.sol.Assert(t); err != nil {
 		px.abort("unsupported", "solver encoding: %v", err)
 	}
+}
+
+// ---------------------------------------------------------------------
+// Byte-set pre-filter: for every 8-bit symbol the set of values allowed by
+// the unary constraints asserted so far.  While a symbol occurs only in
+// unary constraints ("exact"), the set is precise and the symbol is
+// independent of all others, so branch feasibility of a unary condition is
+// decided by evaluating it over the set, without the solver.
+
+type byteSet [4]uint64
+
+func (b *byteSet) has(v int) bool { return b[v>>6]&(1<<(uint(v)&63)) != 0 }
+func (b *byteSet) empty() bool    { return b[0]|b[1]|b[2]|b[3] == 0 }
+func (b *byteSet) first() int {
+	for v := 0; v < 256; v++ {
+		if b.has(v) {
+			return v
+		}
+	}
+	return -1
+}
+
+var NoFilter = os.Getenv("VCHECK_NOFILTER") != ""
+
+func unaryByteVar(t *Term) *Term {
+	var vs []*Term
+	collectVars(t, map[*Term]bool{}, &vs)
+	if len(vs) == 1 && vs[0].op == OpVar && vs[0].w == 8 {
+		return vs[0]
+	}
+	return nil
+}
+
+func (px *pathCtx) setOf(v *Term) *byteSet {
+	if px.bsets == nil {
+		px.bsets = map[string]*byteSet{}
+		px.inexact = map[string]bool{}
+	}
+	s := px.bsets[v.name]
+	if s == nil {
+		s = &byteSet{^uint64(0), ^uint64(0), ^uint64(0), ^uint64(0)}
+		px.bsets[v.name] = s
+	}
+	return s
+}
+
+// satSet returns the subset of cur on which t holds.
+func satSet(t *Term, v *Term, cur *byteSet) byteSet {
+	var out byteSet
+	m := Model{}
+	for x := 0; x < 256; x++ {
+		if !cur.has(x) {
+			continue
+		}
+		m[v.name] = uint64(x)
+		if EvalTerm(t, m) == 1 {
+			out[x>>6] |= 1 << (uint(x) & 63)
+		}
+	}
+	return out
+}
+
+func (px *pathCtx) refine(t *Term) {
+	if NoFilter {
+		return
+	}
+	if v := unaryByteVar(t); v != nil {
+		cur := px.setOf(v)
+		ns := satSet(t, v, cur)
+		*cur = ns
+		return
+	}
+	var vs []*Term
+	collectVars(t, map[*Term]bool{}, &vs)
+	if px.inexact == nil {
+		px.bsets = map[string]*byteSet{}
+		px.inexact = map[string]bool{}
+	}
+	for _, v := range vs {
+		px.inexact[v.name] = true
+	}
+}
+
+// filterFork decides a fork whose conditions are all unary over one exact
+// byte symbol.  Returns ok=false if the filter does not apply.
+func (px *pathCtx) filterFork(conds []*Term) (feasible []bool, sets []byteSet, v *Term, ok bool) {
+	if NoFilter {
+		return nil, nil, nil, false
+	}
+	for _, c := range conds {
+		if c.op == OpBoolConst {
+			continue
+		}
+		u := unaryByteVar(c)
+		if u == nil {
+			return nil, nil, nil, false
+		}
+		if v == nil {
+			v = u
+		} else if v != u {
+			return nil, nil, nil, false
+		}
+	}
+	if v == nil || (px.inexact != nil && px.inexact[v.name]) {
+		return nil, nil, nil, false
+	}
+	cur := px.setOf(v)
+	feasible = make([]bool, len(conds))
+	sets = make([]byteSet, len(conds))
+	for i, c := range conds {
+		if c.op == OpBoolConst {
+			feasible[i] = c.cval == 1
+			if feasible[i] {
+				sets[i] = *cur
+			}
+			continue
+		}
+		sets[i] = satSet(c, v, cur)
+		feasible[i] = !sets[i].empty()
+	}
+	return feasible, sets, v, true
 }
 
 // evalUnderModel returns (value, ok); ok=false if the model is unusable.
@@ -438,6 +563,42 @@ func (px *pathCtx) fork(conds []*Term) int {
 		return k
 	}
 	// new decision point
+	if feas, sets, fv, ok := px.filterFork(conds); ok && px.modelOK {
+		px.filterHits++
+		chosen := -1
+		for i := range conds {
+			if !feas[i] {
+				continue
+			}
+			if chosen < 0 {
+				chosen = i
+				continue
+			}
+			np := make([]int, idx+1)
+			copy(np, px.decisions)
+			np[idx] = i
+			m := make(Model, len(px.model)+1)
+			for k, x := range px.model {
+				m[k] = x
+			}
+			m[fv.name] = uint64(sets[i].first())
+			px.ex.enqueue(workItem{prefix: np, model: m})
+		}
+		if chosen < 0 {
+			px.abort("engine", "no feasible alternative at fork (filter)")
+		}
+		if cur, ok := px.model[fv.name]; !ok || !sets[chosen].has(int(cur)) {
+			nm := make(Model, len(px.model)+1)
+			for k, x := range px.model {
+				nm[k] = x
+			}
+			nm[fv.name] = uint64(sets[chosen].first())
+			px.model = nm
+		}
+		px.decisions = append(px.decisions, chosen)
+		px.assertPC(conds[chosen])
+		return chosen
+	}
 	free := -1
 	if px.modelOK {
 		for i, c := range conds {
